@@ -192,7 +192,7 @@ def units(tier, seed):
         oo.update(o or {})
         out.append(Unit('C14/' + name, 'symx.props.c14', func, kw, oo))
 
-    D, P = (3, 2) if tier == 'quick' else (4, 2)
+    D, P = (3, 2) if tier == 'quick' else (6, 3)
     for op in O.catalogue():
         add('unchanged/%s/D%d,P%d' % (op.name, D, P), 'h_unchanged', opname=op.name, D=D, P=P)
     for opn in BIN:
